@@ -735,7 +735,7 @@ func litFromName(n string) (string, bool) {
 }
 
 // litDecls declares string literals with their length and characters.
-func litDecls(lits []string) string {
+func litDecls(lits []string, litBV bool) string {
 	var b strings.Builder
 	var names []string
 	seen := map[string]bool{}
@@ -750,11 +750,19 @@ func litDecls(lits []string) string {
 		if len(cm) > 80 {
 			cm = cm[:80] + "..."
 		}
-		fmt.Fprintf(&b, "(declare-const %s Str) ; %s\n(assert (= (slen %s) %d))\n", n, cm, n, len(s))
+		if litBV {
+			fmt.Fprintf(&b, "(declare-const %s Str) ; %s\n(assert (= (slen %s) (_ bv%d 64)))\n", n, cm, n, len(s))
+		} else {
+			fmt.Fprintf(&b, "(declare-const %s Str) ; %s\n(assert (= (slen %s) %d))\n", n, cm, n, len(s))
+		}
 		if len(s) <= 48 {
 			var cs []string
 			for i := 0; i < len(s); i++ {
-				cs = append(cs, fmt.Sprintf("(= (sat %s %d) %d)", n, i, s[i]))
+				if litBV {
+					cs = append(cs, fmt.Sprintf("(= (sat %s (_ bv%d 64)) (_ bv%d 8))", n, i, s[i]))
+				} else {
+					cs = append(cs, fmt.Sprintf("(= (sat %s %d) %d)", n, i, s[i]))
+				}
 			}
 			if len(cs) == 1 {
 				b.WriteString("(assert " + cs[0] + ")\n")
